@@ -209,44 +209,6 @@ theorem preProcess_ok (kind : Kind) (nRow nCol nnz : Nat) (B : Nat → Nat → R
       lv = symLevel (kindAdj kind nRow nCol B fb).1 (kindAdj kind nRow nCol B fb).2 w.1 w.2 :=
   preProcessAdj_ok kind _ _ nnz lv h
 
-/-- **Louvain.fit, exact arithmetic.**  The objective of the modularity kind (documented formula on the input
-    matrix) of the returned labels is the objective of the singletons plus the sum of the logged increases, and
-    every logged increase is non-negative. -/
-theorem louvainFit_spec (kind : Kind) (res tolOpt tolAgg : Rat) (nAgg : Int) (nRow nCol nnz : Nat)
-    (B : Nat → Nat → Rat) (fb : Bool) (coreFuel : Nat) (out : FitOut)
-    (h : louvainFit kind res tolOpt tolAgg nAgg nRow nCol nnz B fb coreFuel = .ok (some out)) :
-    out.labels.length = (kindAdj kind nRow nCol B fb).1 ∧
-    objective kind (kindAdj kind nRow nCol B fb).1 (kindAdj kind nRow nCol B fb).2 res (labOf out.labels)
-      = objective kind (kindAdj kind nRow nCol B fb).1 (kindAdj kind nRow nCol B fb).2 res (fun u => u)
-        + out.increases.sum ∧
-    ∀ x ∈ out.increases, 0 ≤ x := by
-  unfold louvainFit at h
-  split at h
-  · cases h
-  · rename_i lv hlv
-    simp only [Except.ok.injEq] at h
-    obtain ⟨w, hw, rfl⟩ := preProcess_ok _ _ _ _ _ _ _ hlv
-    have hOK := symLevel_levelOK (kindAdj kind nRow nCol B fb).1 (kindAdj kind nRow nCol B fb).2 w.1 w.2
-    obtain ⟨extra, k1, k2, k3, k4⟩ := louvainLoop_spec res tolOpt tolAgg nAgg coreFuel _ _ 0 _
-      (arange (kindAdj kind nRow nCol B fb).1) [] out hOK (by simp [arange, symLevel])
-      (fun u hu => by
-        show labOf (List.range (kindAdj kind nRow nCol B fb).1) u < (kindAdj kind nRow nCol B fb).1
-        rw [labOf_range (kindAdj kind nRow nCol B fb).1 u hu]; exact hu)
-      (fun c' => Q_congr _ _ _ _ _ _ _ fun u hu => by
-        show c' u = c' (labOf (List.range (kindAdj kind nRow nCol B fb).1) u)
-        rw [labOf_range (kindAdj kind nRow nCol B fb).1 u hu]) h
-    simp only [List.nil_append] at k1
-    refine ⟨k3, ?_, by rw [k1]; exact k2⟩
-    have e1 := kindWeights_objective kind _ _ w hw res (labOf out.labels)
-    have e2 := kindWeights_objective kind _ _ w hw res (labOf (arange (kindAdj kind nRow nCol B fb).1))
-    have e3 : objective kind (kindAdj kind nRow nCol B fb).1 (kindAdj kind nRow nCol B fb).2 res
-          (labOf (arange (kindAdj kind nRow nCol B fb).1))
-        = objective kind (kindAdj kind nRow nCol B fb).1 (kindAdj kind nRow nCol B fb).2 res (fun u => u) := by
-      rw [← e2, ← kindWeights_objective kind _ _ w hw res (fun u => u)]
-      exact Q_congr _ _ _ _ _ _ _ fun u hu => labOf_range _ _ hu
-    rw [← e1, ← e3, ← e2, k1]
-    exact k4
-
 /-- **Louvain.fit as compiled, exact arithmetic**, on the adjacency `A` of `n` nodes that `get_adjacency` (and the
     optional shuffle) produced -/
 theorem louvainFitAdj_spec (kind : Kind) (res tolOpt tolAgg : Rat) (nAgg : Int) (n : Nat) (A : Nat → Nat → Rat)
